@@ -107,6 +107,7 @@ import twisted.internet.reactor
 
 ae = None  # not a constant so pylint: disable=invalid-name
 booted = []
+built = None  # when the current DAG was built; older work belongs to a previous load
 err = []  # 3.0.0 remove
 que = []
 per = []
@@ -242,6 +243,7 @@ def algorithm_tree_view():
 def build(factories, latest, previous):
     log.info('build() - starting to build DAG')
     dawgie.pl.schedule.ae = dawgie.pl.dag.Construct(factories)
+    dawgie.pl.schedule.built = datetime.datetime.now(datetime.UTC)
     promote.ae = dawgie.pl.schedule.ae
     promote.organize = dawgie.pl.schedule.organize
     dawgie.pl.schedule.que = []
